@@ -1,6 +1,7 @@
 package props
 
 import (
+	"net/http"
 	"math"
 	"context"
 	"encoding/json"
@@ -73,6 +74,10 @@ type MwCase struct {
 	// ReplyOK: downstream also answers every EVENT it receives with an OK for
 	// that event: accepting, or refusing with one of the machine-readable prefixes
 	ReplyOK bool `json:"reply_ok,omitempty"`
+	// ReqHeaders: every session's context carries an upgrade request, as under
+	// a Relay - the same one for all sessions (a reverse proxy in front: same
+	// remote address, same X-Request-Id / X-Forwarded-For / User-Agent)
+	ReqHeaders bool `json:"req_headers,omitempty"`
 	Sched    simrt.Schedule `json:"sched"`
 }
 
@@ -352,6 +357,7 @@ func (e mwEngine) Gen(t *rapid.T, tier string) any {
 	if len(c.Clients) >= 2 && rapid.IntRange(0, 3).Draw(t, "late") == 0 {
 		c.LateFrom = len(c.Clients) - 1
 	}
+	c.ReqHeaders = rapid.IntRange(0, 2).Draw(t, "reqheaders") == 0
 	c.Sched = GenSchedule(t, 1200)
 	return c
 }
@@ -833,6 +839,14 @@ func (e mwEngine) Exec(t *testing.T, cc any) *simrt.Result {
 		var cls []*simrt.Client
 		for i, cl := range c.Clients {
 			ctx := context.WithValue(context.Background(), mwCtxKey{}, i)
+			if c.ReqHeaders {
+				rq, _ := http.NewRequest("GET", "http://relay.example/", nil)
+				rq.RemoteAddr = "10.0.0.1:5555"
+				rq.Header.Set("X-Request-Id", "rid-1")
+				rq.Header.Set("X-Forwarded-For", "203.0.113.7")
+				rq.Header.Set("User-Agent", "client/1.0")
+				ctx = mocrelay.VerifCtxWithRequest(ctx, rq)
+			}
 			k := sim.NewClient(ctx, fmt.Sprintf("c%d", i), cl.Script)
 			cls = append(cls, k)
 		}
